@@ -20,12 +20,6 @@ From SWH.model Require Import Codec.
 From SWH.proofs Require Import CodecProofs CodecRoundtrip CodecLegacy.
 Import ListNotations.
 
-Definition swhid_contract (swhid_str : swhid_kind -> text -> bytes -> text)
-                          (swhid_parse : swhid_kind -> text -> result (text * bytes)) : Prop :=
-  (forall k t i, In t (swhid_tags k) -> length i = 20%nat -> wf_bytes i = true ->
-                 swhid_parse k (swhid_str k t i) = Ok (t, i))
-  /\ (forall k t i, swhid_str k t i <> []).
-
 (* The schema-generic codec.  For EVERY schema with distinct field names in
    which each elided-when-None field defaults to None, every validator and
    post-init hook: decoding the dictionary of an attribute list with
@@ -47,19 +41,13 @@ Theorem C12_roundtrip_all : forall idf swhid_str swhid_parse dateparse,
   forall c fs, wf idf (VObj c fs) ->
   from_dict idf swhid_str swhid_parse dateparse c (to_dict swhid_str (VObj c fs)) =
   (Ok (VObj c fs), to_dict swhid_str (VObj c fs)).
-Proof. intros idf ss sp dp [H1 H2]. exact (roundtrip_all idf ss sp dp H1 H2). Qed.
+Proof. exact roundtrip_all_c. Qed.
 Print Assumptions C12_roundtrip_all.
 
 (* The per-class statements (instances of the above, kept separate so that a
-   change of one override breaks one theorem). *)
-Definition roundtrip_of (c : cls) : Prop :=
-  forall idf swhid_str swhid_parse dateparse, swhid_contract swhid_str swhid_parse ->
-  forall fs, wf idf (VObj c fs) ->
-  fst (from_dict idf swhid_str swhid_parse dateparse c (to_dict swhid_str (VObj c fs))) = Ok (VObj c fs).
-
-Lemma roundtrip_of_all : forall c, roundtrip_of c.
-Proof. intros c idf ss sp dp [H1 H2] fs H. exact (roundtrip_class idf ss sp dp H1 H2 c fs H). Qed.
-
+   change of one override breaks one theorem).  [roundtrip_of c] unfolds to:
+   for all idf, SWHID pair under the contract, dateparse and fs,
+   wf idf (VObj c fs) -> fst (from_dict c (to_dict (VObj c fs))) = Ok (VObj c fs). *)
 Theorem C12_roundtrip_Person : roundtrip_of cPerson. Proof. exact (roundtrip_of_all cPerson). Qed.
 Print Assumptions C12_roundtrip_Person.
 Theorem C12_roundtrip_Timestamp : roundtrip_of cTimestamp. Proof. exact (roundtrip_of_all cTimestamp). Qed.
@@ -109,7 +97,7 @@ Theorem C12_same_id : forall idf swhid_str swhid_parse dateparse,
   exists fs', fst (from_dict idf swhid_str swhid_parse dateparse c (to_dict swhid_str (VObj c fs))) = Ok (VObj c fs')
               /\ fget k_id fs' = fget k_id fs /\ idf c (fdel k_id fs') = idf c (fdel k_id fs)
               /\ fget k_sha1_git fs' = fget k_sha1_git fs.
-Proof. intros idf ss sp dp [H1 H2]. exact (same_id idf ss sp dp H1 H2). Qed.
+Proof. exact same_id_c. Qed.
 Print Assumptions C12_same_id.
 
 (* Converting again yields the same dictionary. *)
@@ -118,7 +106,7 @@ Theorem C12_to_dict_idempotent : forall idf swhid_str swhid_parse dateparse,
   forall c fs, wf idf (VObj c fs) ->
   exists o2, fst (from_dict idf swhid_str swhid_parse dateparse c (to_dict swhid_str (VObj c fs))) = Ok o2
              /\ to_dict swhid_str o2 = to_dict swhid_str (VObj c fs).
-Proof. intros idf ss sp dp [H1 H2]. exact (to_dict_idempotent idf ss sp dp H1 H2). Qed.
+Proof. exact to_dict_idempotent_c. Qed.
 Print Assumptions C12_to_dict_idempotent.
 
 (* The dictionary form contains only plain values (None, bool, int, bytes,
@@ -221,5 +209,5 @@ Print Assumptions C12_valid_satisfiable.
 (* Non-vacuity of the SWHID contract: the concrete printer / parser used by the
    extracted model satisfies it. *)
 Theorem C12_swhid_contract_satisfiable : swhid_contract swhid_str_c swhid_parse_c.
-Proof. exact (conj swhid_c_pair_ok swhid_c_nonempty). Qed.
+Proof. exact swhid_contract_c. Qed.
 Print Assumptions C12_swhid_contract_satisfiable.
